@@ -111,10 +111,10 @@ Definition set_lb_at (s : BroCatli) (i v : N) : res BroCatli :=
   if i =? 0 then Val (set_lbs s v (lb1 s))
   else if i =? 1 then Val (set_lbs s (lb0 s) v) else Panic.
 
+Definition is_none {A} (o : option A) : bool := match o with Some _ => false | None => true end.
 (* NewStreamData::sufficient *)
 Definition sufficient (p : NewStreamData) : bool :=
-  ((num_bytes_read p =? 4) && negb (N.land 127 (nth 0 (bytes_so_far p) 0) =? 17))
-  || (num_bytes_read p =? 5).
+  num_bytes_read p =? NUM_STREAM_HEADER_BYTES.
 
 (* ------------------------------------------------------------------ header parsing *)
 (* parse_window_size(bytes_so_far: &[u8]) -> Result<(u8, usize), ()> ;  Val None = Err(()) *)
@@ -235,24 +235,23 @@ Definition flush_previous_stream (s : BroCatli) (out : list N) (off : N) : res f
       if index =? 0 then Val (mkF s out off BrotliFileNotCraftedForAppend) else
       if negb (N.shiftr lbs (index - 1) =? 3) then Val (mkF s out off BrotliFileNotCraftedForAppend) else
       let index := index - 1 in
+      if (8 <=? index) && (lenN out <=? off) then Val (mkF s out off NeedsMoreOutput) else
       let lbs := N.land lbs (2 ^ index - 1) in
       let s1 := set_lbs s (w8 lbs) (w8 (N.shiftr lbs 8)) in
       if 8 <=? index then
-        if off <? lenN out then
-          match updN out off (lb0 s1) with
+        match updN out off (lb0 s1) with
+        | Panic => Panic
+        | Val out' =>
+          match sub_u (last_bytes_len s1) 1 with
           | Panic => Panic
-          | Val out' =>
-            match sub_u (last_bytes_len s1) 1 with
-            | Panic => Panic
-            | Val len' =>
-              let index := index - 8 in
-              let s2 := set_len (set_any (set_lbs s1 (lb1 s1) (lb1 s1)) true) len' in
-              if index <? 8 then Val (mkF (set_sanitized (set_bit_offset s2 index) true) out' (off + 1) Success)
-              else Panic                        (* assert!(index < 8) *)
-            end
+          | Val len' =>
+            let index := index - 8 in
+            let s2 := set_len (set_any (set_lbs s1 (lb1 s1) (lb1 s1)) true) len' in
+            if index <? 8 then Val (mkF (set_sanitized (set_bit_offset s2 index) true) out' (off + 1) Success)
+            else Panic                        (* assert!(index < 8) *)
           end
-        else Val (mkF s1 out off NeedsMoreOutput)
-      else Val (mkF (set_sanitized (set_bit_offset s1 index) true) out off Success)
+        end
+      else Val (mkF (set_sanitized (set_bit_offset (set_len s1 1) index) true) out off Success)
     end
   end.
 
@@ -347,8 +346,9 @@ Definition shift_prepare (s : BroCatli) (p : NewStreamData) (out : list N) (off 
                   | Val d2 =>
                     let wbd := (d2 + 7) / 8 in
                     let wbs := (varlen_offset + 7) / 8 in
+                    if num_bytes_read p <? wbs then Val (inr BrotliFileNotCraftedForConcatenation) else
                     match sub_u (num_bytes_read p) wbs with
-                    | Panic => Panic                                  (* attempt to subtract with overflow *)
+                    | Panic => Panic
                     | Val ncopy =>
                       match copy_whole (N.to_nat ncopy) 0 wbd wbs (bytes_so_far p) rh with
                       | Panic => Panic
@@ -557,10 +557,11 @@ Definition stream (s : BroCatli) (input : list N) (in_off : N) (out : list N) (o
     | Val f =>
       match f_rc f with
       | Success =>
-        match collect_header (f_s f) p input in_off with
+        match (if is_none (num_bytes_written p) then collect_header (f_s f) p input in_off
+               else Val (f_s f, p, in_off)) with
         | Panic => Panic
         | Val (s1, p1, in1) =>
-          if negb (sufficient p1) then Val (mkS s1 in1 (f_out f) (f_off f) NeedsMoreInput) else
+          if is_none (num_bytes_written p) && negb (sufficient p1) then Val (mkS s1 in1 (f_out f) (f_off f) NeedsMoreInput) else
           if lenN (f_out f) =? f_off f then Val (mkS s1 in1 (f_out f) (f_off f) NeedsMoreOutput) else
           match shift_and_check_new_stream_header s1 p1 (f_out f) (f_off f) with
           | Panic => Panic
